@@ -64,6 +64,16 @@ func frameChecksC08(P *Program, tier string) []extraResult {
 	}
 	res = append(res, extraResult{Name: "inference/summary", Kind: "inferred-frame", OK: len(U) > 50, Count: len(U),
 		Detail: fmt.Sprintf("%d functions reachable from %d read-only handlers; inferred classes %v (each summary is verified against the function body assuming the callees' summaries)", len(U), len(roots), counts)})
+	// hand-written contracts in the cone that state no frame at all: their stores would be invisible here
+	P.cmu.RLock()
+	var frameless []string
+	for n := range P.framelessHand {
+		frameless = append(frameless, n)
+	}
+	P.cmu.RUnlock()
+	sort.Strings(frameless)
+	res = append(res, extraResult{Name: "inference/no-frameless-contract-in-the-cone", Kind: "inferred-frame", OK: len(frameless) == 0, Count: len(U),
+		Detail: fmt.Sprintf("functions reachable from the read-only handlers whose hand-written contract is noframe without modifies / readonly-if / trusted / overlay (their writes would escape the read-only check; mark them overlay or state a frame): %v", frameless)})
 	// handlers
 	seen := map[string]bool{}
 	for _, h := range roots {
